@@ -62,7 +62,7 @@ def run(ctx):
                     "shutdown_kind_stop", "shutdown_kind_drain_stop", "shutdown_kind_stop_racing_submitters", "shutdown_kind_shutdown_racing_submitters", "submitter_pre_lock_delays",
                     "pattern_tight_burst", "pattern_idle_exit_race", "scenarios_reaching_max_threads",
                     "late_submission_refused_cleanly", "condvar_prepark_delays", "thread_create_delays", "worker_post_unlock_delays",
-                    "scenarios_in_second_life", "scenarios_without_error_handler", "tasks_submitted_with_argument_pack", "tasks_throwing_non_std_exception", "long_scenarios", "long_shutdown", "long_destructor", "long_stop", "long_stop-after-timed-out-drain", "long_drain_timed_out_before_stop")
+                    "scenarios_in_second_life", "scenarios_without_error_handler", "scenarios_in_graceful_shutdown_mode", "long_graceful_mode", "tasks_submitted_with_argument_pack", "tasks_throwing_non_std_exception", "long_scenarios", "long_shutdown", "long_destructor", "long_stop", "long_stop-after-timed-out-drain", "long_drain_timed_out_before_stop")
 
 
 def replay(ctx, path):
